@@ -285,6 +285,7 @@ def triu(x, k=0):
     """
     from .core import COO
 
+    x = _validate_coo_input(x)
     check_zero_fill_value(x)
 
     if not x.ndim >= 2:
@@ -326,6 +327,7 @@ def tril(x, k=0):
     """
     from .core import COO
 
+    x = _validate_coo_input(x)
     check_zero_fill_value(x)
 
     if not x.ndim >= 2:
@@ -603,7 +605,7 @@ def argwhere(a):
            [1, 1],
            [1, 2]])
     """
-    return np.transpose(a.nonzero())
+    return np.transpose(_validate_coo_input(a).nonzero())
 
 
 def argmax(x, /, *, axis=None, keepdims=False):
@@ -859,6 +861,8 @@ def diagonal(a, offset=0, axis1=0, axis2=1):
     [`numpy.diagonal`][] : NumPy equivalent function
     """
     from .core import COO
+
+    a = _validate_coo_input(a)
 
     axis1 = normalize_axis(axis1, a.ndim)
     axis2 = normalize_axis(axis2, a.ndim)
